@@ -282,7 +282,53 @@ func run(e *core.Env) {
 	nBatches := 3 + tp.Intn(10)
 	for batch := 0; batch < nBatches; batch++ {
 		e.Step()
-		switch tp.Pick(2, 10) {
+		switch tp.Pick(2, 10, 2) {
+		case 2:
+			// ---- (c) the authenticated peer misbehaves inside an exchange V started ----
+			// V pings M like its keep-alive does (also a retry with the same id); M's honest
+			// router answers; on top of that M sends further, correctly sealed answers to the
+			// same request: duplicates, answers with a wrong body, answers to an unknown id.
+			_, id, err := V.Router.PingPong.Send(M.IP, true, 0)
+			if err != nil {
+				break
+			}
+			if tp.Chance(1, 3) {
+				_, _, _ = V.Router.PingPong.Send(M.IP, true, id)
+			}
+			early := tp.Chance(1, 2)
+			if !early {
+				simnet.Wait()
+				w.cn.DrainFIFO(tp, 400)
+			}
+			for k, n := 0, 1+tp.Intn(3); k < n; k++ {
+				hdr := router.PingHeader{PingID: id, PingType: "pong", FollowUp: true}
+				inner, _ := cbor.Marshal(map[string]string{"msg": "pong"})
+				switch tp.Intn(6) {
+				case 0:
+					inner, _ = cbor.Marshal(map[string]string{"msg": "ping"})
+				case 1:
+					inner = tp.Bytes(tp.Intn(40))
+				case 2:
+					hdr.PingID = uint64(tp.Uint32())
+				}
+				hd, _ := cbor.Marshal(&hdr)
+				body := append([]byte{1, byte(len(hd))}, append(hd, inner...)...)
+				f, err := M.Inst.Builder.NewFrameV1(M.IP, V.IP, frame.RouterPing, nil, body, nil)
+				if err != nil {
+					continue
+				}
+				if sess := M.State.GetSession(V.IP); sess == nil || f.Seal(sess) != nil {
+					f.ReturnToPool()
+					continue
+				}
+				w.what = fmt.Sprintf("extra answer %d of M to V's own ping (before the honest answer: %v)", k+1, early)
+				sendFromM(f)
+				w.panics()
+			}
+			simnet.Wait()
+			w.cn.DrainFIFO(tp, 400)
+			e.Probe("extra_answers_to_own_request")
+			e.Fault("duplicate_response")
 		case 0:
 			// ---- (a) raw bytes on a fresh connection to V's listener ----
 			pair := w.cn.NewPair("raw")
